@@ -552,6 +552,35 @@ def mon_c07(case):
                 return step, f"put_protected({k}) left the key in probationary as well: {nprob}"
             if nprob != [e for e in prob if e[0] != k]:
                 return step, f"put_protected({k}) changed probationary {prob} -> {nprob}"
+        elif 31 <= c <= 38:
+            # peek_{lru,mru}[_mut]_from_{probationary,protected}: the entry at that end of that segment, nothing moves;
+            # the _mut variants may store a value through the reference (op[1] != 0: op[2])
+            seg, nseg = (prob, nprob) if c <= 34 else (prot, nprot)
+            other, nother = (prot, nprot) if c <= 34 else (prob, nprob)
+            lru_end = c in (31, 32, 35, 36)
+            name = {31: "peek_lru_from_probationary", 32: "peek_lru_mut_from_probationary", 33: "peek_mru_from_probationary",
+                    34: "peek_mru_mut_from_probationary", 35: "peek_lru_from_protected", 36: "peek_lru_mut_from_protected",
+                    37: "peek_mru_from_protected", 38: "peek_mru_mut_from_protected"}[c]
+            if not seg:
+                if out != [0] or nseg or nother != other:
+                    return step, f"{name} on an empty segment returned {out} / changed the cache"
+            else:
+                e = seg[-1] if lru_end else seg[0]
+                if out != [1, e[0], e[1]]:
+                    return step, f"{name} returned {out}, the entry at that end of the segment {seg} is {e}"
+                want = list(seg)
+                if c % 2 == 0 and len(op) >= 3 and op[1] != 0:
+                    want[-1 if lru_end else 0] = (e[0], op[2])
+                if nseg != want or nother != other:
+                    return step, (f"{name} must not move anything: segment {seg} -> {nseg} (expected {want}), "
+                                  f"other segment {other} -> {nother}")
+        elif c in (39, 40):
+            seg, nseg = (prob, nprob) if c == 39 else (prot, nprot)
+            other, nother = (prot, nprot) if c == 39 else (prob, nprob)
+            name = "remove_lru_from_probationary" if c == 39 else "remove_lru_from_protected"
+            want_out = [1, seg[-1][0], seg[-1][1]] if seg else [0]
+            if out != want_out or nseg != seg[:-1] or nother != other:
+                return step, f"{name}: segment {seg} -> {nseg}, other {other} -> {nother}, returned {out} (expected {want_out})"
         prob, prot = nprob, nprot
     return None
 
